@@ -5,7 +5,7 @@ Import ListNotations.
 Local Open Scope N_scope.
 
 Definition kernel_spec (kernel : N -> N -> list N) : Prop :=
-  forall a b, a <= MAX64 -> b <= MAX64 -> kernel a b = primes_between a b.
+  forall a b, a <= b -> b <= MAX64 -> kernel a b = primes_between a b.
 Definition cut_spec (cut : list N -> list (list N)) : Prop :=
   forall l, concat (cut l) = l /\ Forall nonempty (cut l).
 
@@ -142,3 +142,33 @@ Example iterator_example :
       (fresh_iter 100 MAX64) [Next; Next; Prev; Prev; Prev; JumpTo 2 0; Prev; Prev; Next; Clear; Next] with Done (i, _) => i | _ => fresh_iter 0 0 end,
       [Val 101; Val 103; Val 101; Val 97; Val 89; NoOut; Val 2; Val 0; Val 2; NoOut; Val 2]).
 Proof. vm_compute. reflexivity. Qed.
+
+(** the kernel of the iterator is the PrimeGenerator: table part (proved from
+    the source tables) + the sieve proper above 720 *)
+From PS Require Import Model.PrimeGen Proofs.PrimeGenP.
+Lemma pg_kernel_spec erat : erat_spec erat -> kernel_spec (pg_primes erat).
+Proof. intros HE a b Hab Hb. apply pg_primes_spec; assumption. Qed.
+
+Theorem next_calls_spec_pg nextDist prevDist maxGap erat cut :
+  erat_spec erat -> cut_spec cut ->
+  forall fuel s h k it' rs,
+    s <= MAX64 ->
+    run nextDist prevDist maxGap (pg_primes erat) cut fuel (fresh_iter s h) (repeat Next k) = Done (it', rs) ->
+    let P := primes_between s MAX64 in
+    rs = map Val (firstn k P) ++ repeat Err (k - length P).
+Proof. intros HE HC. apply next_calls_spec; [apply pg_kernel_spec; exact HE|exact HC]. Qed.
+
+Theorem prev_calls_spec_pg nextDist prevDist maxGap erat cut :
+  erat_spec erat -> cut_spec cut ->
+  forall fuel s h k it' rs,
+    s <= MAX64 ->
+    run nextDist prevDist maxGap (pg_primes erat) cut fuel (fresh_iter s h) (repeat Prev k) = Done (it', rs) ->
+    let P := rev (primes_between 0 s) in
+    rs = map Val (firstn k P) ++ repeat (Val 0) (k - length P).
+Proof. intros HE HC. apply prev_calls_spec; [apply pg_kernel_spec; exact HE|exact HC]. Qed.
+
+Theorem iterator_total_pg nextDist prevDist maxGap erat cut :
+  erat_spec erat -> cut_spec cut ->
+  forall os it c, R it c -> Forall op_ok os ->
+    exists it' rs, run nextDist prevDist maxGap (pg_primes erat) cut enough_fuel it os = Done (it', rs).
+Proof. intros HE HC. apply iterator_total; [apply pg_kernel_spec; exact HE|exact HC]. Qed.
